@@ -235,6 +235,7 @@ func finishCheck(run *PropRun, t0 time.Time, update bool) int {
 	seen := map[string]*ObGroup{}
 	replayDir := filepath.Join(outDir(), "replays", id)
 	os.MkdirAll(replayDir, 0o755)
+	nReplays := 0
 	isKnown := func(name string) *Finding {
 		for i := range findings {
 			f := &findings[i]
@@ -252,7 +253,10 @@ func finishCheck(run *PropRun, t0 time.Time, update bool) int {
 		}
 		path := writeReplay(run, g, reason, replayDir)
 		suffix := ""
-		if !replayConfirms(run, g, path) {
+		nReplays++
+		if nReplays > 8 {
+			suffix = " no-failing-input-found (replay skipped: more than 8 violations in this run)"
+		} else if !replayConfirms(run, g, path) {
 			suffix = " no-failing-input-found"
 		}
 		violations = append(violations, g.Name)
